@@ -757,6 +757,17 @@ def run(ctx: Context) -> None:
                     and isinstance(st.value.args[0], ast.Call) and dotted(st.value.args[0].func) == 'len':
                 positional, how = True, norm_text(st)
         ctx.check('R05.6', positional, "the table's own index is discarded in favour of row positions before conversion", d2d, tox[0], construct=f"{d2d.name}: {how}")
+        if helper is not None:
+            # the rows become a dimension of the name asked for: the index is given that name before the conversion
+            dcfg = ctx.cfg(d2d)
+            named_ = [st for st in walk_no_nested(d2d.node) if isinstance(st, ast.Assign) and norm_text(st.targets[0]).endswith('.index.name')
+                      and dflow.canon(st.value) == ('param', 'dimension_name')]
+            renamed_ = [c for c in calls_in(d2d) if isinstance(c.func, ast.Attribute) and c.func.attr in ('rename_axis', 'rename', 'rename_dims', 'swap_dims')
+                        and 'dimension_name' in norm_text(c)]
+            from ..cfg import stmt_of as _st
+            ok_n = (len(named_) == 1 and dcfg.dominates(named_[0], _st(d2d, tox[0]))) or bool(renamed_)
+            ctx.check('R05.6', ok_n, "the rows of the table become the dimension the caller asked for: the index is named `dimension_name` before it is converted", d2d,
+                      named_[0] if named_ else tox[0], construct=f"{d2d.name}: {norm_text(named_[0]) if named_ else (norm_text(renamed_[0])[:60] if renamed_ else 'the index keeps its own name')}")
         mg_ = [c for c in method_calls(ed_, 'merge')]
         if helper is not None:
             conv = [c for c in calls_in(ed_) if callee(ctx, ed_, c) == f"{PX}._dataframe_to_dataset"]
@@ -776,6 +787,7 @@ from ..variants import V  # noqa: E402
 _B = 'src/emsarray/conventions/_base.py'
 _P = 'src/emsarray/operations/point_extraction.py'
 VARIANTS = [
+    V('C05', 'table-rows-keep-their-own-dimension-name', 'src/emsarray/operations/point_extraction.py', "    dataframe.index.name = dimension_name\n", "", 'R05.6'),
     V('C05', 'promoted-type-read-under-another-key', 'src/emsarray/operations/point_extraction.py', "            encoded_dtype = variable.encoding.get('dtype')\n", "            encoded_dtype = variable.encoding.get('dtyp')\n", 'R05.3'),
     V('C05', 'promoted-kept-only-with-missing-value', 'src/emsarray/operations/point_extraction.py', "                and 'missing_value' not in variable.encoding\n", "                and 'missing_value' in variable.encoding\n", 'R05.3'),
     V('C05', 'custom-point-dimension-discarded', 'src/emsarray/conventions/_base.py', "        if point_dimension is None:\n            point_dimension = utils.find_unused_dimension(self.dataset, 'point')", "        if point_dimension is not None:\n            point_dimension = utils.find_unused_dimension(self.dataset, 'point')", 'R05.9'),
